@@ -106,7 +106,11 @@ def check_got_vs_want(want, got_stdout, got_eval=constants.NOT_EVALED,
                     raise ExtractGotReprException('Error calling repr for {}. Caused by: {!r}'.format(type(got_eval), ex), ex)
                 flag = check_output(got, want, runstate)
                 if not flag:
-                    got = got_stdout
+                    # Like the interactive interpreter (and the standard
+                    # doctest module): the echoed value follows whatever
+                    # the statement printed.
+                    flag = check_output(got_stdout + got, want, runstate)
+                    got = got_stdout + got if flag else got_stdout
     if not flag:
         msg = 'got differs with doctest want'
         exp = GotWantException(msg, got, want)
